@@ -314,6 +314,37 @@ Proof.
   rewrite E. reflexivity.
 Qed.
 
+(** the counts of DD/Pick.v ([count_bdd] / [count_bcdd] / [count_zbdd]: the branch weights in the theorems
+    C13_*_uniform_prob) are the values of a call with [vars = num_levels] in exact arithmetic *)
+Lemma sat_ref_pick_count : forall s e v, sat_ref exact_ops s (nlevels s) e = Some v ->
+  match s_kind s with
+  | KBdd => count_bdd s e = v
+  | KBcdd => count_bcdd s e = v
+  | KZbdd => count_zbdd s e = v
+  | _ => True
+  end.
+Proof.
+  intros s e v. unfold sat_ref. destruct (s_kind s) eqn:Hk; try exact (fun _ => I); rewrite ?terminal_val_exact.
+  - unfold count_bdd, sat_bdd. destruct (SatCount.walk _ s _ (eref e) false) as [x|]; simpl; [|discriminate].
+    intros E. inversion E. reflexivity.
+  - unfold count_bcdd, sat_bcdd. destruct (SatCount.walk _ s _ (eref e) (etag e)) as [x|]; simpl; [|discriminate].
+    intros E. inversion E. unfold rescale, scaled_bcdd. simpl. change (2 ^ 0)%N with 1%N. lia.
+  - unfold count_zbdd, sat_zbdd, paths_zbdd. destruct (SatCount.walk _ s _ (eref e) false) as [x|]; simpl; [|discriminate].
+    intros E. inversion E. reflexivity.
+Qed.
+
+(** non-vacuity of [uni_counts_sound]: at the root of (x0 /\ x1) \/ x2 the closure obtains 6 = #(x1 \/ x2) and
+    4 = #x2 over three variables and leaves them in the cache *)
+Example ex_uni_counts :
+  cinv exact_ops ex_mgr0 (cache_new true) /\
+  view_plain ex_sat_bdd (xe (RN 4)) = CNode 0 (xe (RN 3)) (xe (RN 2)) /\
+  match uni_counts exact_ops view_plain (cache_new true) 0%N ex_sat_bdd (xe (RN 4)) with
+  | Some (ct, ce, c) => ct = 6%N /\ ce = 4%N /\ count_bdd ex_sat_bdd (xe (RN 3)) = 6%N /\
+                        PositiveMap.find 2%positive (c_map c) = Some 4%N
+  | None => False
+  end.
+Proof. split; [apply cinv_new|]. vm_compute. repeat split; reflexivity. Qed.
+
 (** * Part 4: the tag rule is necessary *)
 
 Lemma ex_mgr0_ok : mgr_ok ex_mgr0.
